@@ -556,10 +556,51 @@ def expand_spec(spec):
     return out
 
 
+def complement(a):
+    """the atom string that holds exactly when `a` does not (integer / boolean atoms of the canonical vocabulary)"""
+    import re
+    m = re.match(r"^bit (.*) = ([01])$", a)
+    if m:
+        return "bit %s = %d" % (m.group(1), 1 - int(m.group(2)))
+    for p_, q_ in ((" is Some", " is None"), (" is None", " is Some"), (" is Ok", " is Err"), (" is Err", " is Ok")):
+        if a.endswith(p_):
+            return a[:-len(p_)] + q_
+    m = re.match(r"^pred (.*) (True|False)$", a)
+    if m:
+        return "pred %s %s" % (m.group(1), "False" if m.group(2) == "True" else "True")
+    if a.endswith(" == 0"):
+        return a[:-5] + " != 0"
+    if a.endswith(" != 0"):
+        return a[:-5] + " == 0"
+    return None
+
+
+def merge_complementary(paths):
+    """a set of conjunctions (paths) as a disjunction: two paths that differ in exactly one atom and its complement are
+    one path without it (the test does not matter) — applied to a fixpoint, so that the way a decision tree is nested
+    (which test comes first, whether two identical outcomes are reached separately) does not change the set"""
+    paths = list(set(frozenset(p) for p in paths))
+    changed = True
+    while changed:
+        changed = False
+        for i in range(len(paths)):
+            for j in range(i + 1, len(paths)):
+                a, b = paths[i], paths[j]
+                da, db = a - b, b - a
+                if len(da) == 1 and len(db) == 1 and complement(next(iter(da))) == next(iter(db)):
+                    paths = [p for k, p in enumerate(paths) if k not in (i, j)] + [a & b]
+                    paths = list(set(paths))
+                    changed = True
+                    break
+            if changed:
+                break
+    return paths
+
+
 def compare(res, rule, fn, where, got, want, what="accept path"):
     """Exact comparison of path sets; reports atoms missing / extra relative to the closest spec case."""
-    got = set(got)
-    want = set(want)
+    got = set(merge_complementary(got))
+    want = set(merge_complementary(want))
     n_ok = len(got & want)
     for _ in range(n_ok):
         res.hit(rule)
